@@ -221,14 +221,19 @@ def expav_record(rng, k, d, gs, src):
         g0, g1 = g[0], g[1]
         mm = lambda a, b: a @ b  # noqa: E731
     for L in LS:
-        if k == 1:
-            out = X.variation_as1(g, float(L))
-        elif k == 2:
-            out = X.variation_as2(g, float(L), float(bs[0]), mm(g0, g0))
-        else:
-            out = X.variation_as3(
-                g, float(L), float(bs[0]), float(bs[1]), mm(g0, g0), mm(mm(g0, g0), g0), mm(g1, g0), mm(g0, g1)
-            )
+        try:
+            if k == 1:
+                out = X.variation_as1(g, float(L))
+            elif k == 2:
+                out = X.variation_as2(g, float(L), float(bs[0]), mm(g0, g0))
+            else:
+                out = X.variation_as3(
+                    g, float(L), float(bs[0]), float(bs[1]), mm(g0, g0), mm(mm(g0, g0), g0), mm(g1, g0), mm(g0, g1)
+                )
+        except TypeError:
+            # the helper no longer has the documented signature (products handed in by the caller): it is
+            # an internal of the dispatchers, which are judged on their own (kind "expa")
+            return None
         m, ex = _mat_out(out, d)
         ok = ok and ex
         cells.append({"L": L, "out": _pairs(m)})
@@ -300,7 +305,11 @@ def build_records(chk):
     recs.append(expa_record(rng, "singlet_variation", 4, 4, [_rmat(rng, 4, 1) for _ in range(4)], BetaSrc(rng, False)))
     for k in (1, 2, 3):
         for d in (1, 2):
-            recs.append(expav_record(rng, k, d, [_rmat(rng, d) for _ in range(3)], BetaSrc(rng, False)))
+            r = expav_record(rng, k, d, [_rmat(rng, d) for _ in range(3)], BetaSrc(rng, False))
+            if r is None:
+                chk.diag(f"variation_as{k} does not accept the documented arguments: helper-level record skipped, dispatchers judged")
+            else:
+                recs.append(r)
     fns = ["non_singlet_variation_qed", "valence_variation_qed", "singlet_variation_qed"]
     for idx, (o0, o1, running) in enumerate(combos):
         fn = fns[idx % 3]
@@ -370,10 +379,12 @@ def run(chk):
     g4 = next(x for x in recs if x["kind"] == "expaq" and x["o1"] == 2 and x["running"] and x["d"] <= 2)
     c4 = copy.deepcopy(g4)
     c4["coef"][0][1][0][0] = bump(c4["coef"][0][1][0][0])
-    g5 = next(x for x in recs if x["kind"] == "expav" and x["k"] == 3)
-    c5 = copy.deepcopy(g5)
-    c5["cells"][1]["out"][0][0] = bump(c5["cells"][1]["out"][0][0])
-    corrupted = [c1, c3, c4, c5]
+    corrupted = [c1, c3, c4]
+    g5 = next((x for x in recs if x["kind"] == "expav" and x["k"] == 3), None)
+    if g5 is not None:
+        c5 = copy.deepcopy(g5)
+        c5["cells"][1]["out"][0][0] = bump(c5["cells"][1]["out"][0][0])
+        corrupted.append(c5)
     if g2 is not None:
         c2 = copy.deepcopy(g2)
         c2["out"][0][2][0][0] = bump(c2["out"][0][2][0][0])
